@@ -18,7 +18,7 @@ From DT Require Import PyStr Sexp PyVal TyExpr Extracted PureUtils Defaults PyAs
 From DT Require Import C17Spec C01Spec C02Spec C02Codec C02DocLinkDefs.
 From DT Require DocEmit DocParse SyncProps C18Spec.
 From DT Require Import PyStrFacts SplitFacts DefaultsFacts DocParseFacts.
-From DT Require DocEmitFacts FillFacts C02Compose.
+From DT Require DocEmitFacts FillFacts C02Compose PureUtilsFacts.
 Import ListNotations.
 
 (* ================================================================== *)
@@ -210,14 +210,7 @@ Lemma multiline_single : forall d, wfine d -> multiline_noquote d = d.
 Proof.
   intros d [[c [r [E Hc]]] [Hnl [l [Hl [Hls Hb]]]]]. unfold multiline_noquote. subst d.
   rewrite (splitlines_single c r Hnl). cbn [map join].
-  unfold rstrip_chars. rewrite rstrip_by_pad by reflexivity.
-  apply rstrip_by_id. intros c' Hc'. rewrite Hl in Hc'. injection Hc' as Hc'. subst c'.
-  assert (E1 : ascii_eqb l sp = false).
-  { apply ascii_eqb_neq. intros E. subst l. discriminate. }
-  assert (E2 : ascii_eqb l nl = false).
-  { apply ascii_eqb_neq. intros E. subst l. discriminate. }
-  assert (E3 : ascii_eqb l (ch 92) = false) by (apply ascii_eqb_neq; exact Hb).
-  change (existsb (ascii_eqb l) [sp; nl; ch 92] = false). cbn [existsb]. rewrite E1, E2, E3. reflexivity.
+  change (L " \" ++ [nl]) with [sp; ch 92; nl]. apply PureUtilsFacts.drop_last3_app.
 Qed.
 
 Lemma iabf_wfine : forall d n, wfine d -> indent_all_but_first d n false = d.
@@ -1497,7 +1490,7 @@ Definition link_fails (edd : bool) (i : ir) : bool :=
   guard_C02_ast i && negb (doc_link_ok 100 edd false i) && negb (doc_link_b 100 edd false i).
 
 Definition w_no_terminal : ir := one_param (L "first one") (Some (VInt 5)).     (* edd: a full stop is inserted *)
-Definition w_backslash : ir := one_param (L "ends with \") None.               (* multiline() strips it *)
+Definition w_backslash : ir := one_param (L "ends with \") None.               (* regression point: multiline() used to strip it (fixed in /repo) *)
 Definition w_tab : ir := one_param (L "a" ++ [tabch] ++ L "b") None.             (* cleandoc expands the tab *)
 Definition w_token : ir := one_param (L "see :cvar x") None.                     (* the scanner splits the prose *)
 Definition w_announces : ir := one_param (L "it defaults to 3.") None.          (* read as a default, removed *)
@@ -1505,7 +1498,7 @@ Definition w_no_entry : ir :=                                                   
   mkIR FNone (Has (L "static")) (Has (L "Doc.")) [(L "a", gp None (Some (L "int")) None)] FNone None.
 
 Lemma C02_doc_link_refuted_outside :
-  link_fails true w_no_terminal = true /\ link_fails false w_backslash = true /\ link_fails false w_tab = true
+  link_fails true w_no_terminal = true /\ link_fails false w_tab = true
   /\ link_fails false w_token = true /\ link_fails false w_announces = true /\ link_fails false w_no_entry = true.
 Proof. vm_compute. repeat split; reflexivity. Qed.
 
@@ -1515,16 +1508,17 @@ Theorem C02_doc_link_needs_side_condition :
        exists text d, class_docstring_text w edd ww i = Ok text /\ class_docstring_ir text = Ok d
                       /\ doc_agrees i d = true).
 Proof.
-  intros H. destruct (H 100 false false w_backslash eq_refl) as [text [d [Ht [Hd Ha]]]].
-  assert (E : doc_link_b 100 false false w_backslash = true).
+  intros H. destruct (H 100 false false w_tab eq_refl) as [text [d [Ht [Hd Ha]]]].
+  assert (E : doc_link_b 100 false false w_tab = true).
   { unfold doc_link_b. rewrite Ht, Hd. exact Ha. }
   vm_compute in E. discriminate E.
 Qed.
 
-(* a docstring-level failure that finding_class_C02 does not name: prose ending in a backslash loses it
-   (to_docstring's multiline() strips trailing backslashes); real code: 'ends with \' comes back 'ends with' *)
-Lemma C02_trailing_backslash_unclassified :
+(* regression point for the /repo fix of pure_utils.multiline (it used to end with rstrip over blank, newline and
+   backslash, which ate a backslash at the end of the prose: 'ends with \' came back 'ends with'; found by this proof):
+   the point is inside the guard, in no finding class, and the docstring link now holds there *)
+Lemma C02_trailing_backslash_regression :
   finding_class_C02 (mkO02 false false) w_backslash = None /\ finding_class_C02 (mkO02 true true) w_backslash = None
   /\ C02_domain w_backslash = true /\ guard_C02_ast w_backslash = true
-  /\ doc_link_b 100 false false w_backslash = false.
+  /\ doc_link_b 100 false false w_backslash = true.
 Proof. vm_compute. repeat split; reflexivity. Qed.
